@@ -1348,12 +1348,12 @@ def trinterp(start, end, s=None):
         if start is None:
             #	TRINTERP(T, s)
             q0 = base.r2q(end)
-            qr = base.slerp(base.eye(), q0, s)
+            qr = base.slerp(base.eye(), q0, s, shortest=True)
         else:
             #	TRINTERP(T0, T1, s)
             q0 = base.r2q(start)
             q1 = base.r2q(end)
-            qr = base.slerp(q0, q1, s)
+            qr = base.slerp(q0, q1, s, shortest=True)
 
         return base.q2r(qr)
 
@@ -1364,7 +1364,7 @@ def trinterp(start, end, s=None):
             q0 = base.r2q(base.t2r(end))
             p0 = transl(end)
 
-            qr = base.slerp(base.eye(), q0, s)
+            qr = base.slerp(base.eye(), q0, s, shortest=True)
             pr = s * p0
         else:
             #	TRINTERP(T0, T1, s)
@@ -1374,7 +1374,7 @@ def trinterp(start, end, s=None):
             p0 = transl(start)
             p1 = transl(end)
 
-            qr = base.slerp(q0, q1, s)
+            qr = base.slerp(q0, q1, s, shortest=True)
             pr = p0 * (1 - s) + s * p1
 
         return base.rt2tr(base.q2r(qr), pr)
